@@ -115,6 +115,15 @@ class Frontend:
     def _native(s, src, out, inst, flags, defs):
         if os.path.exists(out):
             return out, ''
+        if flags and flags[0] == 'CLANG':
+            # clang build against the scratch copy (UBSan of the compiler whose IR the engine executes)
+            cmd = (['clang++-14'] + COMMON + ['-w'] + list(flags[1:]) + s.includes()
+                   + [f'-DVF_INST={inst}', '-DVF_NATIVE'] + [f'-D{d}' for d in defs]
+                   + [src, os.path.join(HARNESS, 'replay_rt.cpp'), '-o', out])
+            r = run(cmd)
+            if r.returncode != 0:
+                return None, r.stdout
+            return out, ''
         cmd = (['g++'] + COMMON + ['-w'] + list(flags) + s.includes(os.path.join(REPO, 'lib'))
                + [f'-DVF_INST={inst}', '-DVF_NATIVE'] + [f'-D{d}' for d in defs]
                + [src, os.path.join(HARNESS, 'replay_rt.cpp'), '-o', out])
